@@ -9,7 +9,7 @@
     one parent job is evaluated once (_pending_expr is not in the model). *)
 From Coq Require Import List ZArith Bool Arith Lia.
 From RV Require Import Model.JobMachine Proofs.JobBase Proofs.JobRes Proofs.JobRes3
-  Proofs.JobOnce Proofs.JobOnce2 Proofs.JobOnce3 Proofs.JobCtx Proofs.JobDup Proofs.JobDup2.
+  Proofs.JobOnce Proofs.JobOnce2 Proofs.JobOnce3 Proofs.JobCtx Proofs.JobDup Proofs.JobDup2 Proofs.JobDup3.
 Import ListNotations.
 Open Scope list_scope.
 
@@ -99,6 +99,16 @@ Qed.
 
 Definition c06_cfg_fixed : config := {| limit_of := fun _ => 1%Z; dryrun := false; vr := all_fixed |}.
 
+(** Each job ends once: a job that has its result or error keeps exactly it, whatever happens afterwards (later
+    completions, duplicates being told, re-nominations). *)
+Theorem C06_outcome_final : forall c ops ops' j x o,
+  pending_owner_safe (vr c) = true ->
+  getj (run c ops) j = Some x -> jphase x = PSettled o ->
+  exists x', getj (run c (ops ++ ops')) j = Some x' /\ jphase x' = PSettled o.
+Proof.
+  intros c ops ops' j x o Hs Hx P. apply (settled_forever c Hs ops ops' j o). exists x. auto.
+Qed.
+
 (** Non-vacuity: job 1 collapses into the running job 0; job 0 finishes with 7; job 1 ends with 7. *)
 Example C06_duplicates_agree_nonvacuous :
   let ops := [ ONew 5 0 [] false true false; OPop 0 0 CMiss; ONew 5 0 [] false true false; OPop 0 1 CMiss;
@@ -157,6 +167,7 @@ Proof. vm_compute. reflexivity. Qed.
 Print Assumptions C06_one_submitter_per_key.
 Print Assumptions C06_duplicates_agree.
 Print Assumptions C06_preset_is_final.
+Print Assumptions C06_outcome_final.
 Print Assumptions C06_duplicate_handed_value_partial.
 Print Assumptions C06_duplicate_handed_error_partial.
 Print Assumptions C06_duplicate_done_resolve_partial.
